@@ -18,6 +18,13 @@ RULE = ('Cases = generated multi-instrument scene (layered, merge_chain with per
         'Distinct by (class, order pattern of the new names, exclusion pattern, look-back engaged, layer codes).')
 ASSUMPTIONS = ['crashes of the original run are left to C08 (skipped here)']
 BUDGET = {'quick': 1100, 'thorough': 14000}
+CORPUS = 'pipeline'
+
+
+def from_corpus(case):
+    names = sorted(set(r[0] for r in case['rows']))
+    new = ['~z', 'a', '10', '9', ' ', 'Zz', '00', 'b', 'x1', 'x2', 'x3', 'x4', 'x5', 'x6'][:len(names)]
+    return dict(case, rename=dict(zip(names, new)))
 WEIGHTS = {'layered': 7, 'merge_chain': 4, 'split_candidate': 3, 'ref_window': 3, 'exact_counts': 2}
 TARGETS = S.NAME_POOL + S.CONFUSABLE + ['', ' ', 'B', 'Z', 'z', '~', '!', '01', '001', 'a b', 'NaN', 'None', '-1']
 
